@@ -95,6 +95,10 @@ class kFlowDecompCycles(walkmodel.AbstractWalkModelDiGraph):
             - If the graph contains edges with negative flow values.
             - ValueError: If `flow_attr_origin` is not `node` or `edge`.
         """
+        # (one-shot iterables - generators, iterators - are read once, here: the type checks below would use them up and the model would see nothing)
+        elements_to_ignore = list(elements_to_ignore) if elements_to_ignore is not None else elements_to_ignore
+        additional_starts = list(additional_starts) if additional_starts is not None else additional_starts
+        additional_ends = list(additional_ends) if additional_ends is not None else additional_ends
         utils.logger.info(f"{__name__}: START initializing with graph id = {utils.fpid(G)}, k = {k}")
 
         # Handling node-weighted graphs
